@@ -36,8 +36,10 @@ fn lookup(id: &str) -> Option<(RunFn, ReplayFn)>
         "C07" => Some((props::audits::run_c07, props::audits::replay_c07)),
         "C08" => Some((props::audits::run_c08, props::audits::replay_c08)),
         "C09" => Some((props::audits::run_c09, props::audits::replay_c09)),
+        "C17" => Some((props::c17::run, props::c17::replay)),
         "C18" => Some((props::c18::run, props::c18::replay)),
         "C20" => Some((props::audits::run_c20, props::audits::replay_c20)),
+        "C10" => Some((props::c10::run, props::c10::replay)),
         "C11" => Some((props::c11::run, props::c11::replay)),
         "C12" => Some((props::c12::run, props::c12::replay)),
         "C13" => Some((props::c13::run, props::c13::replay)),
